@@ -457,6 +457,26 @@ class RealTunnel:
         self._reap()
         return k, order, calls
 
+    def quiet(self):
+        """'Nothing is pending' evaluated on the REAL objects (the Python twin of Quiet / quietB): queues drained,
+        no handler connecting, both buffers of every listed handler empty, nothing to read, every flag that
+        callback / pre_select would propagate already propagated."""
+        if self.cmux.outbuf or self.smux.outbuf:
+            return False
+        for f in self.flows:
+            for p, hl, env, sock_first in ((f.cproxy, self.chandlers, f.app, True), (f.sproxy, self.shandlers, f.dst, False)):
+                if p is None or p not in hl:
+                    continue
+                sw, mw = (p.wrap1, p.wrap2) if sock_first else (p.wrap2, p.wrap1)
+                ok = (sw.connect_to is None and not b''.join(sw.buf) and not b''.join(mw.buf) and
+                      (sw.shut_read or (not env.pending and not env.eof_in)) and
+                      (not sw.shut_read or mw.shut_write) and (not mw.shut_read or sw.shut_write) and
+                      (not sw.shut_write or mw.shut_read) and (not mw.shut_write or sw.shut_read) and
+                      (not (sw.shut_read and mw.shut_read) or not p.ok))
+                if not ok:
+                    return False
+        return True
+
     def check_full(self, end):
         mux = self.cmux if end == 'c' else self.smux
         self._guard(end, mux.check_fullness)
@@ -568,6 +588,11 @@ class Script:
                 self.ins.append('q cb %s %d %s' % (end, i, iotext))
             self.ins.append('pre %s 99999' % end)
             self.outs.append(t.show() + ' wants=none')
+            return True
+        if k == 'quiet':
+            self.steps.append(st)
+            self.ins.append('quiet')
+            self.outs.append('quiet=%d' % (1 if t.quiet() else 0))
             return True
         if k == 'accept':
             payload = t.accept()
